@@ -45,6 +45,7 @@ type rejectedProposal struct {
 
 type rt struct {
 	rejectedSeen []rejectedProposal // proposals the consumer rejected: the (Byzantine) peers vote for them all the same
+	panicAtCommit int64 // the n-th commit callback of the run panics (0: never)
 	lingerMs   int32
 	slowSeq    int64
 	rejectSalt int
@@ -223,8 +224,12 @@ func (r *rt) onCommit(ctx context.Context, block interfaces.Block, blockProof []
 	r.sendMu.Lock()
 	r.proofs[h] = append([]byte{}, blockProof...)
 	r.sendMu.Unlock()
-	atomic.AddInt64(&r.commitCount, 1)
+	n := atomic.AddInt64(&r.commitCount, 1)
 	r.log("cb.commit", obj{"h": h, "blk": blockName(block)})
+	if r.panicAtCommit > 0 && n == r.panicAtCommit { // the consumer's own code crashes inside the callback (once): the library's
+		r.log("consumer.panic", obj{"h": h}) // supervisor restarts the worker loop; the height has been handed over all the same
+		panic("verif: the consumer's commit callback panics")
+	}
 	dead := r.gate(ctx, "commit", h, 9)
 	if dead || r.intn(100) < int(atomic.LoadInt32(&r.failCommit)) {
 		r.log("cb.commit.failed", obj{"h": h})
@@ -588,6 +593,7 @@ type rtParams struct {
 	realTimer bool
 	churn     int  // rounds of (election, commit in the next view) after the probe
 	panicSync bool // the cancellation comes from inside a consumer block whose Height() then panics in the main loop
+	consumerPanic bool // one commit callback of the run panics (consumer code crashes)
 	waitBlocked   bool // from cancelAt on: cancel at the first moment the worker sits in a consumer call (odd runs: real timer)
 	staleAtCancel bool // from cancelAt on: as soon as a commit callback is blocked, the election of its (height, view) fires, the
 	// callback is released (the worker moves on: the trigger waiting in its slot is now stale) and Run's context is cancelled at once
@@ -632,6 +638,7 @@ func (r *rt) flood() {
 		if blocked {
 			r.log("api.msg.blocked", obj{"what": "flood", "ms": 2000})
 			atomic.StoreInt32(&r.hung, 1)
+			r.fireElection(false) // is the main loop still there to be told that the view of the blocked call is over ?
 			return
 		}
 	}
@@ -645,6 +652,9 @@ func runRuntime(p rtParams, runId int) []rtEvent {
 	atomic.StoreInt32(&r.failCommit, int32(rnd.Intn(25)))
 	if p.staleAtCancel {
 		r.blockProb["commit"] = 70
+	}
+	if p.consumerPanic {
+		r.panicAtCommit = int64(1 + rnd.Intn(3))
 	}
 	cfg := &interfaces.Config{InstanceId: clusterInstance, Communication: r, Membership: r, BlockUtils: r,
 		KeyManager: &nodeKeyManager{ring: cl.ring, me: r.me}, ElectionTimeoutOnV0: 3 * time.Millisecond}
@@ -690,7 +700,7 @@ func runRuntime(p rtParams, runId int) []rtEvent {
 	defer func() { state.VerifCtxHook = nil }()
 	base := moduleGoroutines()
 	ctx, cancel := context.WithCancel(context.Background())
-	r.log("init", obj{"garbage": p.garbage, "run": runId, "seed": p.seed, "cancelat": p.cancelAt, "blockprob": fmt.Sprint(r.blockProb), "ctxonly": r.ctxOnly, "realtimer": p.realTimer, "base": base})
+	r.log("init", obj{"consumer_panics": p.consumerPanic, "garbage": p.garbage, "run": runId, "seed": p.seed, "cancelat": p.cancelAt, "blockprob": fmt.Sprint(r.blockProb), "ctxonly": r.ctxOnly, "realtimer": p.realTimer, "base": base})
 	waiter := r.main.Run(ctx)
 	cancelled := false
 	doCancel := func() {
@@ -1022,6 +1032,7 @@ func cmdRuntime(args []string) int {
 		if i%3 == 1 && i%2 == 0 {
 			p.cancelAt = rnd.Intn(*ops) // plain cancellation at a random point of the run
 		}
+		p.consumerPanic = i%6 == 5
 		if i%3 == 0 {
 			p.cancelAt = rnd.Intn(*ops) // cancellation injected at a random point of the run
 			p.panicSync = i%4 == 1
